@@ -469,6 +469,57 @@ func c12jumpSignals(p *core.Prog, res *core.Result, fi *core.FuncInfo, rule stri
 	if n == 0 {
 		res.Unres(rule, fkey+"|signal→queue", p.Pos(fi.Decl.Pos()), "no send of a signal to the jump queue found")
 	}
+	// every path through the signal branch also passes the signal on downstream: a mark
+	// waits for its signal to come back from *every* jump that targets it, and the jumps
+	// further down the pipeline only see what the earlier ones forward
+	var outObj types.Object
+	i := 0
+	for _, f := range fi.Decl.Type.Params.List {
+		for _, nm := range f.Names {
+			if i == 3 {
+				outObj = info.Defs[nm]
+			}
+			i++
+		}
+	}
+	ast.Inspect(fi.Decl.Body, func(x ast.Node) bool {
+		is, ok := x.(*ast.IfStmt)
+		if !ok {
+			return true
+		}
+		c, isCall := ast.Unparen(is.Cond).(*ast.CallExpr)
+		if !isCall {
+			return true
+		}
+		sel, ok := c.Fun.(*ast.SelectorExpr)
+		if !ok || sel.Sel.Name != "IsSignal" {
+			return true
+		}
+		fl := &core.Flow{Info: info, Body: is.Body}
+		fl.Events = func(nd ast.Node, st *core.State) ([]string, bool) {
+			if snd, ok := nd.(*ast.SendStmt); ok && outObj != nil && defOrUse(info, snd.Chan) == outObj {
+				return []string{"fwd"}, false
+			}
+			return nil, false
+		}
+		fl.Run()
+		missing := token.NoPos
+		fl.ExitStates(func(ret *ast.ReturnStmt, st *core.State, b *cfg.Block) {
+			if !st.Held["fwd"] && missing == token.NoPos {
+				missing = is.Body.End()
+				if len(b.Nodes) > 0 {
+					missing = b.Nodes[len(b.Nodes)-1].Pos()
+				}
+			}
+		})
+		key := fkey + "|signal→downstream"
+		if missing != token.NoPos {
+			res.Bad(rule, key, p.Pos(missing), fmt.Sprintf("%s: a path through the signal branch (ending near %s) does not send the signal on the step's output: a second jump to the same mark further down never sees it, the mark waits for ever for that jump's return, and the traversal does not terminate", fkey, p.Pos(missing)))
+		} else {
+			res.OK(rule, key, p.Pos(is.Pos()), "every path through the signal branch forwards the signal downstream")
+		}
+		return false
+	})
 }
 
 
